@@ -98,7 +98,7 @@ def run(ck):
             ck.anchor_missing("1", "T4-guarded-by", q)
             continue
         ssa = T.calls(b, name="same_source_as")
-        oks = [(i, j, st) for i, j, st in b.statements() if st["s"] == "assign" and st["pl"]["l"] == 0 and st["rv"]["r"] == "agg" and st["rv"].get("variant") == "Ok" and not b.is_cleanup(i)]
+        oks = [(i, j, st) for i, j, st in b.statements() if st["s"] == "assign" and st["pl"]["l"] in T.ret_locals(b) and st["rv"]["r"] == "agg" and st["rv"].get("variant") == "Ok" and not b.is_cleanup(i)]
         ck.floor("1", q + ": same_source_as test + Ok return", len(ssa) + len(oks), 2)
         for i, j, st in oks:
             ok = False
@@ -279,8 +279,9 @@ def run(ck):
         ck.anchor_missing("4", "T6-provenance", "LoopHandle::register_dispatcher")
     else:
         ve_calls = [c.bb for c in T.calls(rd, name="vacant_entry")]
-        rets = [st for i, j, st in rd.statements() if st["s"] == "assign" and st["rv"]["r"] == "agg" and st["rv"].get("adt", "").endswith("RegistrationToken") and not rd.is_cleanup(i)]
-        ok = bool(rets) and all(T.resolves_to_call(rd, st["rv"]["fields"][0], ve_calls) and T.path_has(rd, st["rv"]["fields"][0], ".token") for st in rets)
+        rets = [st["rv"]["fields"][0] for i, j, st in rd.statements() if st["s"] == "assign" and st["rv"]["r"] == "agg" and st["rv"].get("adt", "").endswith("RegistrationToken") and not rd.is_cleanup(i)]
+        rets += [cs.args[0] for cs in T.calls(rd, name="new", path="RegistrationToken::new") if not rd.is_cleanup(cs.bb)]
+        ok = bool(rets) and all(T.resolves_to_call(rd, x, ve_calls) and T.path_has(rd, x, ".token") for x in rets)
         ck.verdict(ok, "4", "T6-provenance", rd, "returned-token=filled-slot.token", "the RegistrationToken handed to the user is the token (id + current generation) of the slot that was just filled", "register_dispatcher does not return the token of the slot it filled", site=rd.where())
         tf = T.calls(rd, name="new", path="TokenFactory::new")
         ck.verdict(bool(tf) and all(T.resolves_to_call(rd, c.args[0], ve_calls) and T.path_has(rd, c.args[0], ".token") for c in tf), "4", "T6-provenance", rd, "registers-under-filled-slot.token", "the source is registered under the filled slot's token", "register_dispatcher does not register the source under the filled slot's token", site=rd.where())
